@@ -276,6 +276,17 @@ func (n *Net) Do(req *http.Request) (*http.Response, error) {
 	n.S.Gate(c.ID+"/do", &e.dp)
 	e.mu.Lock()
 	defer e.mu.Unlock()
+	if cerr := req.Context().Err(); cerr != nil || e.abortErr != nil && !e.HandlerDone {
+		// The context finished, or the stream was reset, before the response
+		// headers were handed to the caller: RoundTrip fails, whatever the
+		// server wrote afterwards is never seen.
+		err := e.abortErr
+		if cerr != nil {
+			err = cerr
+		}
+		e.abortLocked(err)
+		return nil, urlErr(req, err)
+	}
 	if !e.committed {
 		// context finished (or the exchange died) before response headers
 		err := e.abortErr
